@@ -116,6 +116,11 @@ def main():
     log("projection round trip ok")
     for n in range(1, 7):
         stimuli.iter_graph(n)
+    for n in range(1, 5):
+        stimuli.multi_graph(n, 2)
+    stimuli.multi_graph(2, 3)
+    stimuli.cfg_cover(2)
+    stimuli.cfg_cover(3)
     rot = [r for r in prim.REPRS if r not in corpus_rt.QUICK_REPRS_FIXED]
     from concurrent.futures import ThreadPoolExecutor
     with ThreadPoolExecutor(6) as ex:
